@@ -204,6 +204,53 @@ Proof.
   - rewrite map_length. exact Hf.
 Qed.
 
+(** ** C16: when every include statement of the workspace is reached (well-formed enclosing
+    statements), the indexer enters EVERY workspace file: together with [touch_index], every include
+    statement of the workspace that does not resolve has its not-found diagnostic *)
+Definition all_reached (its : list item) : Prop :=
+  forall sid reached tgt, In (IInc sid reached tgt) its -> reached = true.
+
+Theorem touch_all_entered : forall w fuel st p c st' fset root fuel' tr,
+  hinv w st -> touch fuel w st p c = Done st' ->
+  sroot (snd st') = Some (fset, root) ->
+  index fuel' (snd st') = Done tr ->
+  (forall q c0, reach (eff w st p c) (extra w) p q -> eff w st p c q = Some c0 ->
+                NoDup (inc_sids (c_items c0)) /\ all_reached (c_items c0)) ->
+  forall f q, In (f, q) fset -> In f (files_of tr).
+Proof.
+  intros w fuel st p c st' fset root fuel' tr H E S Hx Hwf.
+  destruct (touch_reach w fuel st p c st' H E) as [fset' [root' [S' [R [ND [NDi [Hp Hreach]]]]]]].
+  rewrite S in S'. injection S' as <- <-.
+  assert (Hwfs : wf_fs (fst st')).
+  { destruct (touch_done w fuel st p c st' H E) as [V [_ [a [b [_ [_ [_ [[W _] _]]]]]]]]. exact W. }
+  destruct (index_closed (snd st') fuel' fset root tr S Hx) as [Hroot Hclosed].
+  assert (G : forall q, reach (eff w st p c) (extra w) p q ->
+                forall f, path_for_file (fst st') f = Some q -> In f (files_of tr)).
+  { intros q Hq. induction Hq as [|q1 sid q Hq1 IH Hs]; intros f Hf.
+    - assert (f = root) by (eapply pof_inj; eauto). subst f. exact Hroot.
+    - pose proof Hq1 as Hin. apply Hreach in Hin. apply in_map_iff in Hin.
+      destruct Hin as [[f1 q1'] [Eq Hi1]]. cbn [snd] in Eq. subst q1'.
+      destruct (workspace_entry w fuel st p c st' fset root f1 q1 H E S Hi1)
+        as [c0 [d [lid [K1 [K2 [K3 [K4 [K5 [K6 K7]]]]]]]]].
+      destruct (Hwf q1 c0 Hq1 K1) as [NDs Hall].
+      unfold succs, dirs_of in Hs. rewrite K1, K2 in Hs.
+      destruct (presolve_all_in _ _ _ _ _ Hs) as [s [Hinc Hres]].
+      destruct (list_includes_in _ _ _ Hinc) as [reached [lr Hitem]].
+      pose proof (Hall _ _ _ Hitem) as ->.
+      pose proof (lookup_id (eff w st p c) (fst st') (d :: extra w) (c_items c0) lid NDs K6
+                            sid true (Some (s, lr)) Hitem) as L.
+      cbn [resolves] in L. rewrite Hres in L.
+      destruct (im_get sid lid) as [t|] eqn:Et; [|contradiction].
+      assert (f = t) by (eapply pof_inj; eauto). subst t.
+      pose proof (Hclosed f1 (IH f1 K3)) as Hc.
+      apply (Hc sid (Some (s, lr)) f).
+      + unfold items_of. rewrite K4. exact Hitem.
+      + unfold map_of. rewrite K5. exact Et. }
+  intros f q Hi. apply (G q).
+  - apply Hreach. change q with (snd (f, q)). apply in_map. exact Hi.
+  - apply Hp. exact Hi.
+Qed.
+
 End Theorems.
 
 (** ** C07: the inputs after a history = the inputs of a fresh host given the final texts *)
@@ -358,6 +405,16 @@ Theorem session_index_terminates : forall (w : world) fuel0 h (st : state) fuel 
   length fset < fuel' ->
   exists tr, index fuel' (snd st') = Done tr.
 Proof. intros. eapply touch_index_terminates; eauto using session_hinv. Qed.
+
+Theorem session_all_entered : forall (w : world) fuel0 h (st : state) fuel p c st' fset root fuel' tr,
+  run fuel0 w st_init h = Done st ->
+  touch fuel w st p c = Done st' ->
+  sroot (snd st') = Some (fset, root) ->
+  index fuel' (snd st') = Done tr ->
+  (forall q c0, reach (eff w st p c) (extra w) p q -> eff w st p c q = Some c0 ->
+                NoDup (inc_sids (c_items c0)) /\ all_reached (c_items c0)) ->
+  forall f q, In (f, q) fset -> In f (files_of tr).
+Proof. intros. eapply touch_all_entered; eauto using session_hinv. Qed.
 
 (** closure criterion used by the examples: a list that contains the root and is closed under
     [succs] covers the reachable set *)
